@@ -36,6 +36,12 @@ void h_canon(void)
 #ifdef VG_SHAPE_CHAIN
 	/* concrete extreme shape: maximum-length codes: lengths 1, 2, ..., VG_CL-1, VG_CL, VG_CL (VG_CN == VG_CL + 1 symbols) */
 	for (k = 0; k < VG_CN; k++) len[k] = (uint8_t) (k + 1 < VG_CL ? k + 1 : VG_CL);
+#elif defined(VG_SHAPE_FLAT256)
+	/* concrete extreme shape: one whole level of the tree: 256 symbols of equal length 8 (VG_CN == 256, VG_CL == 8) */
+	for (k = 0; k < VG_CN; k++) len[k] = 8;
+#elif defined(VG_SHAPE_FLAT256P2)
+	/* concrete extreme shape: 256 symbols of length 9 preceded by two 2-bit codes (VG_CN == 258, VG_CL == 9) */
+	for (k = 0; k < VG_CN; k++) len[k] = (uint8_t) (k < 2 ? 2 : 9);
 #else
 	for (k = 0; k < VG_CN; k++) { len[k] = nondet_uchar(); __CPROVER_assume(len[k] <= VG_CL); }
 #endif
